@@ -11,7 +11,7 @@
    reference decoder (block recursion over the published COBS, COBS/R, COBS/ZPE schemes,
    CobsModel.v).  [pre] are bytes of earlier frames still in the window. *)
 From MptV Require Import Base.Mem Cobs.CobsModel Cobs.PyModel Cobs.EncProofs Cobs.EncTheorems
-  Cobs.EncProgress Cobs.PyProofs Cobs.TextModel Cobs.TextProofs.
+  Cobs.EncProgress Cobs.PyProofs Cobs.TextModel Cobs.TextProofs Cobs.ArrayPush.
 
 (* the four framings are instances of the variant record the theorems quantify over *)
 Theorem C01_variants_ok :
@@ -85,6 +85,48 @@ Theorem C01_text_decoder_delivers :
 Proof. exact cmd_delivers. Qed.
 
 (* ---- non-vacuity ---- *)
+(* THE LIBRARY'S OWN PUSH LOOP, mpt_array_push on an encode_array ([apush]: buffer allocated on first
+   use, enlarged by detach on MissingBuffer, continued after partial consumption).  [arr_ok]: the
+   buffer, if any, holds the encoder window.  A data push reports k bytes consumed: exactly those are
+   encoded; an error leaves a valid state with nothing of this push consumed. *)
+Theorem C01_array_push_data :
+  forall v pre c0 st buf cap l, variant_ok v -> l <> [] ->
+    enc_inv v pre c0 st buf -> arr_ok st cap ->
+    let '(r, st', buf', cap') := apush (enc_call v) st buf cap (Some l) in
+    match r with
+    | EInt k => k <= length l /\ enc_inv v pre (c0 ++ firstn k l) st' buf' /\ arr_ok st' cap'
+    | EErr _ => enc_inv v pre c0 st' buf' /\ arr_ok st' cap'
+    | EFault => True
+    end.
+Proof. exact apush_data. Qed.
+
+Theorem C01_array_push_term :
+  forall v pre consumed st buf cap, variant_ok v ->
+    enc_inv v pre consumed st buf -> arr_ok st cap ->
+    let '(r, st', buf', cap') := apush (enc_call v) st buf cap None in
+    match r with
+    | EInt _ => exists body, buf' = pre ++ body ++ [0%N] /\ sdec v body = Some consumed /\
+                  nozero body = true /\ idle_state st' buf' /\ arr_ok st' cap'
+    | EErr _ => enc_inv v pre consumed st' buf' /\ arr_ok st' cap'
+    | EFault => True
+    end.
+Proof. exact apush_term. Qed.
+
+(* non-vacuity: a 100-byte message through mpt_array_push on an empty encode_array (the buffer is
+   allocated, enlarged on the way) and the termination: the frame decodes to the message *)
+Example C01_example_array_push :
+  let m := repeat 65%N 70 ++ [0%N] ++ repeat 66%N 29 in
+  match apush (enc_call v_cobs) (mke 0 0 0) [] 0 (Some m) with
+  | (EInt k, st1, buf1, cap1) =>
+    k = 100 /\
+    match apush (enc_call v_cobs) st1 buf1 cap1 None with
+    | (EInt _, st2, buf2, cap2) => sdec v_cobs (removelast buf2) = Some m /\ last buf2 1%N = 0%N
+    | _ => False
+    end
+  | _ => False
+  end.
+Proof. vm_compute. auto. Qed.
+
 Example C01_example_split_zpe :
   let r := run_script v_zpe (mkr (mke 0 0 0) [] 0 [65;0;0;66;0]%N false)
              [Offer 3 2; Offer 0 2; Offer 1 5; Offer 4 1; Offer 0 3; Finish 0; Finish 2] in
@@ -116,3 +158,5 @@ Print Assumptions C01_py_roundtrip.
 Print Assumptions C01_variants_ok.
 Print Assumptions C01_text_encoder_roundtrip.
 Print Assumptions C01_text_decoder_delivers.
+Print Assumptions C01_array_push_data.
+Print Assumptions C01_array_push_term.
